@@ -31,8 +31,10 @@ def is_ns(kind: str) -> bool:
 
 def normalise(cfg: dict) -> dict:
     c = dict(kind="ns2d", shape=None, dtype="float64", forcing=False, stream=False, filter=None,
-             poisson="greens", width=2, params=list(DEFAULT_PARAMS), x_range=1.0, stream_kind="generic")
+             poisson="greens", width=2, params=list(DEFAULT_PARAMS), x_range=1.0, stream_kind="generic", time0=0.0, filter_default=False)
     c.update(cfg)
+    if c["filter"] == "default":  # filter_vorticity=True WITHOUT a settings dictionary: documented default is multiplicative, order 2
+        c["filter"], c["filter_default"] = ["multiplicative", 2], True
     d = dim_of(c["kind"])
     if c["shape"] is None:
         c["shape"] = (12, 14) if d == 2 else (10, 11, 12)
@@ -52,23 +54,24 @@ def make_sim(cfg: dict, num_threads=False):
     if k == "ns2d":
         return sps.UnboundedNavierStokesFlowSimulator2D(
             grid_size=c["shape"], x_range=c["x_range"], kinematic_viscosity=nu, real_t=real_t, num_threads=num_threads,
-            with_forcing=c["forcing"], with_free_stream_flow=c["stream"], flow_density=rho, penalty_zone_width=c["width"],
+            with_forcing=c["forcing"], with_free_stream_flow=c["stream"], flow_density=rho, penalty_zone_width=c["width"], time=c["time0"],
         )
     if k == "ns3d":
         kw = {}
         if c["filter"] is not None:
             kw["filter_vorticity"] = True
-            kw["filter_setting_dict"] = {"type": c["filter"][0], "order": int(c["filter"][1])}
+            if not c["filter_default"]:
+                kw["filter_setting_dict"] = {"type": c["filter"][0], "order": int(c["filter"][1])}
         return sps.UnboundedNavierStokesFlowSimulator3D(
             grid_size=c["shape"], x_range=c["x_range"], kinematic_viscosity=nu, real_t=real_t, num_threads=num_threads,
-            with_forcing=c["forcing"], with_free_stream_flow=c["stream"], flow_density=rho, penalty_zone_width=c["width"],
+            with_forcing=c["forcing"], with_free_stream_flow=c["stream"], flow_density=rho, penalty_zone_width=c["width"], time=c["time0"],
             poisson_solver_type=POISSON[c["poisson"]], **kw,
         )
     d = dim_of(k)
     ft = "vector" if k == "pt3dv" else "scalar"
     return sps.PassiveTransportFlowSimulator(
         kinematic_viscosity=nu, grid_dim=d, grid_size=c["shape"], x_range=c["x_range"], real_t=real_t,
-        num_threads=num_threads, field_type=ft,
+        num_threads=num_threads, field_type=ft, time=c["time0"],
     )
 
 
